@@ -752,9 +752,13 @@ def items(tier: str, seed: int) -> list[Any]:
         out.append(({"steps": steps, "commit_fault": [0, 1, 3]}, 0, cap))
     # slow disk: more than a thousand rows wait in the writer queue (nothing may be lost, reordered or block the scan), also
     # when the run is cancelled right after exchange number k (scripted cancel; these long runs are executed on the benign schedule)
-    many = [("req", "22%04x" % (0x1000 + i), ("reply", "62%04xaa" % (0x1000 + i)), False) for i in range(1030)]
+    many = [("req", "22%04x" % (0x1000 + i), ("reply", "62%04xaa" % (0x1000 + i)), False) for i in range(1045)]
     out.append(({"steps": many, "stall": 12000}, 0, cap))
-    for kc in (999, 1000, 1001, 1002, 1015):
+    # rows with and without the ANALYZE tag while the writer is behind: the order of the rows is still the order on the wire
+    tagged = [("req", "22%04x" % (0x2000 + i), ("reply", "62%04xbb" % (0x2000 + i)), i >= 10 and i % 3 == 1) for i in range(24)]  # (the first ten rows are ordinary ones: they pile up behind the stalled writer)
+    out.append(({"steps": tagged, "stall": 400}, 1, cap))
+    out.append(({"steps": tagged, "stall": 400, "cancel": True, "cancel_not_before": 20}, 1, cap))
+    for kc in (999, 1000, 1001, 1002, 1015, 1024, 1025, 1026, 1027, 1040):
         for depth in (1, 2, 3, 5):
             out.append(({"steps": many, "stall": 12000, "cancel_after_reply": [kc, depth]}, 0, cap))
     # many transient errors over one run: every row's first attempt fails / one row fails many times in a row / both
